@@ -96,6 +96,15 @@ def build_tape_check(run, drv, items, stats):
                                dict(where, tape=t[0], model=m.strip(), implementation=t[1]))
 
 
+def monitor_new_text_only(run, where, inv, meta, hist, ii, rep):
+    """targets, graph and dirtiness are resolved against the new text only: a pool the manifest in force declares is not unknown"""
+    if inv.result.startswith("err:") and inv.graphs and not inv.graphs[-1].error:
+        msg = unhexs(inv.result[4:]).decode("utf-8", "replace")
+        m = re.search(r'unknown pool "([^"]*)"', msg)
+        if m and m.group(1) in [n for n, _ in inv.graphs[-1].pools]:
+            run.report_failure(None, "the manifest in force declares pool %r, yet the invocation fails with: %s" % (m.group(1), msg[:120]), where)
+
+
 def gen(rng, **kw):
     steps, invs, info = gen_history(rng, with_regen=("include" if rng.random() < 0.35 else True), with_pools=True, nmax=8, **kw)
     return steps, invs, info
@@ -112,5 +121,5 @@ def main(tier, seed, replay=None):
         build_tape_check(run, build_driver(), seen, stats)
         run.coverage["orchestration_model"] = stats
 
-    return world_check(PROP, THEOREMS, tier, seed, [monitor_regen, monitor_null_build, collect], scen_gen=gen, clean_oracle=True, replay=replay,
+    return world_check(PROP, THEOREMS, tier, seed, [monitor_regen, monitor_new_text_only, monitor_null_build, collect], scen_gen=gen, clean_oracle=True, replay=replay,
                        before_finish=finish_hook)
